@@ -1561,3 +1561,83 @@ def check_mean_counts(ctx, rule: str, module_paths, floor: int = 0) -> int:
                 ctx.violation(rule, construct, '`%s` averages over the slice `%s` with the element count of the whole `%s`: the mean is wrong whenever '
                               'the slice is not the whole array' % (norm(node)[:70], sl, base), fn.path, node.lineno, operand='count:' + base)
     return n
+
+
+# ---------------------------------------------------------------------------------------------------------------
+def stale_masks(fn: FuncInfo):
+    """(use node, mask, array): a boolean mask / index array is computed from an array X (`X == 0`, `X > t`, `~m`, `np.nonzero(X ...)`,
+    `np.argsort(X)`), X is then RE-BOUND (broadcast, reshaped, converted, replaced) and the mask is used as an index after
+    that: it describes the old X - its shape or order need not match the new one."""
+    stmts = stmts_in_order(fn)
+    order = {id(s): i for i, s in enumerate(stmts)}
+    binds = {}
+    for s in stmts:
+        tg = []
+        if isinstance(s, ast.Assign):
+            tg = s.targets
+        elif isinstance(s, (ast.AnnAssign, ast.AugAssign)):
+            tg = [s.target]
+        elif isinstance(s, ast.For):
+            tg = [s.target]
+        for t in tg:
+            for x in ast.walk(t):
+                if isinstance(x, ast.Name) and isinstance(x.ctx, ast.Store):
+                    binds.setdefault(x.id, []).append(order[id(s)])
+    masks = {}                 # name -> (index of def, set of source array names)
+    for s in stmts:
+        if isinstance(s, ast.Assign) and len(s.targets) == 1 and isinstance(s.targets[0], ast.Name):
+            v = s.value
+            src = None
+            while isinstance(v, ast.UnaryOp) and isinstance(v.op, ast.Invert):
+                v = v.operand
+            if isinstance(v, ast.Compare):
+                src = {x.id for x in ast.walk(v) if isinstance(x, ast.Name)}
+            elif isinstance(v, ast.Name) and v.id in masks:
+                src = set(masks[v.id][1])
+            elif isinstance(v, ast.Call) and norm(v.func) in ('np.nonzero', 'np.flatnonzero', 'np.where', 'np.argsort', 'np.logical_not', 'np.isnan') and v.args:
+                src = {x.id for x in ast.walk(v.args[0]) if isinstance(x, ast.Name)}
+            if src:
+                src -= {s.targets[0].id}
+                if src and len(binds.get(s.targets[0].id, [])) == 1:
+                    masks[s.targets[0].id] = (order[id(s)], src)
+    for m, (i, src) in masks.items():
+        for x_name in sorted(src):
+            rebinds = [k for k in binds.get(x_name, []) if k > i]
+            if not rebinds:
+                continue
+            first = min(rebinds)
+            for s in stmts:
+                k = order[id(s)]
+                if k <= first:
+                    continue
+                own = []
+                for fld, v in ast.iter_fields(s):
+                    if fld in ('body', 'orelse', 'finalbody', 'handlers'):
+                        continue
+                    for x in (v if isinstance(v, list) else [v]):
+                        if isinstance(x, ast.AST):
+                            own.extend(ast.walk(x))
+                hit = next((x for x in own if isinstance(x, ast.Subscript) and any(isinstance(y, ast.Name) and y.id == m for y in ast.walk(x.slice))), None)
+                if hit is not None:
+                    yield hit, m, x_name
+                    break
+
+
+def check_no_stale_masks(ctx, rule: str, module_paths, floor: int = 0) -> int:
+    ctx.rule(rule, 'a mask / index array computed from an array is not used as an index after that array was re-bound (broadcast, reshaped, '
+                   'replaced): it must be computed from the array in its final form', floor=floor)
+    M = ctx.model
+    n = 0
+    for path in module_paths:
+        mod = M.module(path)
+        fns = [f for c in mod.classes.values() for f in list(c.methods.values()) + list(c.getters.values())] + list(mod.functions.values())
+        for fn in fns:
+            construct = fn.qualname
+            ctx.instance(rule, construct)
+            n += 1
+            hits = list(stale_masks(fn))
+            ctx.obligation(rule, construct, not hits, {'stale': [(h[1], h[2]) for h in hits]} if hits else None, nontrivial=bool(hits))
+            for node, m, x in hits[:1]:
+                ctx.violation(rule, construct, 'the mask `%s` was computed from `%s` before `%s` was re-bound, and indexes `%s` afterwards: it describes the '
+                              'old array (its shape / order need not match)' % (m, x, x, norm(node)[:50]), fn.path, node.lineno, operand='stale-mask:' + m)
+    return n
